@@ -13,6 +13,7 @@ import (
 	"verifharness/internal/core"
 	"verifharness/internal/gen"
 	"verifharness/internal/mon"
+	"verifharness/internal/ref"
 	"verifharness/internal/util"
 )
 
@@ -174,6 +175,62 @@ func c19Run(c *core.Ctx, idx int) {
 		hist[i] = pool[c.Rng.Intn(len(pool))]
 	}
 
+	// Half of the cases: the list is longer than the 4 KiB read block and a
+	// rule straddles a block boundary exactly where cutting it leaves a valid,
+	// broader rule (the part before '$', before ',' or before '|') that matches
+	// a request of the history although the whole rule does not.
+	if c.Rng.Intn(2) == 0 {
+		q := pool[c.Rng.Intn(len(pool))]
+		h := q.Host
+		if !q.HostnameReq {
+			h = ref.HostOf(q.URL)
+		}
+		if h != "" && !strings.ContainsAny(h, ":") {
+			var full string
+			var cut int
+			switch c.Rng.Intn(3) {
+			case 0:
+				full = "||" + h + "^$client=NoSuchClientAnywhere"
+				if kind != "dns" {
+					full = "||" + h + "^$domain=nomatch-zz.example"
+				}
+				cut = strings.IndexByte(full, '$')
+			case 1:
+				full = "||" + h + "^$important,client=NoSuchClientAnywhere"
+				if kind != "dns" {
+					full = "||" + h + "^$important,domain=nomatch-zz.example"
+				}
+				cut = strings.IndexByte(full, ',')
+			default:
+				full = "||" + h + "^$ctag=~nosuchtag|device_zz"
+				if kind != "dns" {
+					full = "||" + h + "^$domain=~nomatch-zz.example|other-zz.example"
+				}
+				cut = strings.LastIndexByte(full, '|')
+			}
+			at := c.Rng.Intn(len(lines) + 1)
+			pre := util.Lines(lines[:at])
+			target := 4096
+			for len(pre)+cut+3 > target {
+				target += 4096
+			}
+			target += []int{0, 0, 0, -1, 1}[c.Rng.Intn(5)]
+			padLen := target - cut - len(pre)
+			pad := "! " + strings.Repeat("-", padLen-3)
+			nl := append(append(append([]string(nil), lines[:at]...), pad, full), lines[at:]...)
+			lines = nl
+			content = util.Lines(lines)
+			if werr := os.WriteFile(file, []byte(content), 0o644); werr != nil {
+				c.Inconclusive("cannot write scratch file")
+
+				return
+			}
+			// Make sure the history asks for it.
+			hist[c.Rng.Intn(len(hist))] = q
+			c.Event("lists_with_rule_straddling_a_block_boundary", 1)
+		}
+	}
+
 	// Fault-free oracle from a String-backed twin over the same bytes.
 	var oracleNet [][]string
 	var oracleV4, oracleV6 [][]string
@@ -324,7 +381,7 @@ func init() {
 	core.Register(&core.Prop{
 		ID:    "C19",
 		Level: "fault_enumeration",
-		Rule: "per case one file-backed list (DNS: rules + hosts lines over colliding names; network: a pool mixing all index paths) and one query history of 10..30 (thorough 10..60) queries drawn with repeats from 8 distinct requests; for EVERY fault point k in 0..n and every fault kind in {RuleStorage.Close, file handle replaced by an already closed descriptor, by a directory descriptor (Seek succeeds, reads fail with EISDIR), by the read end of a closed pipe (Seek fails with ESPIPE)} the engine is rebuilt, queries before k must equal a String-backed twin, queries from k on must not panic, must return a subset of the fault-free result whose members individually match, and must still return every rule materialised before k (tracked from storage.insert hook events, cross-checked with GetCacheSize); " +
+		Rule: "per case one file-backed list (DNS: rules + hosts lines over colliding names; network: a pool mixing all index paths) and one query history of 10..30 (thorough 10..60) queries drawn with repeats from 8 distinct requests; in half of the cases the list is padded beyond the 4 KiB read block so that a rule straddles a block boundary exactly where its prefix is a valid broader rule matching a request of the history; for EVERY fault point k in 0..n and every fault kind in {RuleStorage.Close, file handle replaced by an already closed descriptor, by a directory descriptor (Seek succeeds, reads fail with EISDIR), by the read end of a closed pipe (Seek fails with ESPIPE)} the engine is rebuilt, queries before k must equal a String-backed twin, queries from k on must not panic, must return a subset of the fault-free result whose members individually match, and must still return every rule materialised before k (tracked from storage.insert hook events, cross-checked with GetCacheSize); " +
 			"non-trivial = every (list, history) pair, each contributing 4*(n+1) fault placements; distinct by list and history length",
 		Assumptions: []string{
 			"the fault-free oracle is a String-backed twin engine over the same bytes",
